@@ -131,7 +131,7 @@ def extract_and_build_driver():
         raise RuntimeError('ocaml build failed:\n' + out[-3000:])
     open(stamp, 'w').write(h)
 
-def build_harness():
+def build_harness(race=False):
     """Compile the harness INTO /repo's module with -overlay (nothing is written to /repo)."""
     rep = {}
     for p in glob.glob(os.path.join(ROOT, 'go/harness/*.go')):
@@ -147,9 +147,14 @@ def build_harness():
                  cwd=REPO, env=GOENV, timeout=900)
     if rc != 0:
         raise RuntimeError('harness build failed (does /repo still compile?):\n' + out[-4000:])
+    if race:
+        rc, out = sh(['go', 'build', '-race', '-tags', 'verif', '-overlay', ov, '-o', exe + '-race', './internal/verifharness'],
+                     cwd=REPO, env=GOENV, timeout=1800)
+        if rc != 0:
+            raise RuntimeError('race-enabled harness build failed:\n' + out[-4000:])
     return exe
 
-def prepare(need_harness=True):
+def prepare(need_harness=True, race=False):
     with Lock():
         t0 = time.time()
         build_gen()
@@ -157,7 +162,7 @@ def prepare(need_harness=True):
         ok, out, failed = coq_make()
         extract_and_build_driver()
         if need_harness:
-            build_harness()
+            build_harness(race)
         log('prepare: %.1fs, coq ok=%s failed=%s' % (time.time() - t0, ok, failed))
         return dict(coq_ok=ok, coq_failed=failed, translators=tr, coq_log=out)
 
@@ -242,7 +247,7 @@ def _limit_memory():
     except Exception:
         pass
 
-def run_harness(domain, cases_file, timeout=3000):
+def run_harness(domain, cases_file, timeout=3000, binary='harness'):
     """Run the implementation on every case.  If the harness process dies (a fatal runtime error
     such as out-of-memory cannot be recovered inside Go), the case it died on is reported as a
     crash and the run continues with the remaining cases (at most three times)."""
@@ -254,7 +259,7 @@ def run_harness(domain, cases_file, timeout=3000):
     while start < len(cases):
         part = cases_file + '.part'
         open(part, 'w').write('\n'.join(cases[start:]) + '\n')
-        p = subprocess.run(['timeout', str(timeout), os.path.join(BUILD, 'harness'), 'run', domain, part], env=GOENV,
+        p = subprocess.run(['timeout', str(timeout), os.path.join(BUILD, binary), 'run', domain, part], env=dict(GOENV, GORACE='halt_on_error=1 exitcode=66'),
                            stdout=subprocess.PIPE, stderr=subprocess.PIPE, text=True, preexec_fn=_limit_memory)
         rc = p.returncode
         lines = p.stdout.split('\n')
@@ -270,9 +275,15 @@ def run_harness(domain, cases_file, timeout=3000):
             break
         # the process died while running cases[start]
         crashes += 1
-        why = (p.stderr or '').strip().split('\n')
+        err_txt = p.stderr or ''
+        why = err_txt.strip().split('\n')
         why = next((w for w in why if 'fatal error' in w or 'panic' in w or 'runtime:' in w), why[0] if why else 'no output')
-        res.append(('CRASH', 'FAIL:crash:the process died running this case (%s)' % why[:200]))
+        if 'DATA RACE' in err_txt:
+            funcs = re.findall(r'^  ([A-Za-z0-9_./*()\[\]-]+)\(', err_txt, re.M)
+            kind = 'data-race'
+            res.append(('RACE', 'FAIL:%s:%s' % (kind, ' <- '.join(funcs[:6])[:400])))
+        else:
+            res.append(('CRASH', 'FAIL:crash:the process died running this case (%s)' % why[:200]))
         start += 1
         if crashes >= 3:
             res.extend([('SKIPPED', '-')] * (len(cases) - start))
@@ -357,7 +368,7 @@ def run_check(prop, tier, seed, replay):
     pid = prop['id']
     t0 = time.time()
     try:
-        info = prepare()
+        info = prepare(race=bool(prop.get('race_domains')))
     except RuntimeError as e:
         # the machinery no longer builds against /repo (the tree does not compile, or an internal
         # interface the white-box harness uses has changed): the property is no longer shown to hold
@@ -378,7 +389,7 @@ def run_check(prop, tier, seed, replay):
 def run_batch(prop, dom, cases, work, tag):
     cf = os.path.join(work, 'cases_%s_%s.txt' % (dom, tag))
     open(cf, 'w').write('\n'.join(cases) + '\n')
-    rc, impl = run_harness(dom, cf)
+    rc, impl = run_harness(dom, cf, binary='harness-race' if dom in prop.get('race_domains', ()) else 'harness')
     if prop.get('no_model', {}).get(dom):
         model = ['-'] * len(cases); spec = ['-'] * len(cases); nq = 0
     else:
